@@ -3,5 +3,5 @@ CONSTANTS
   Tier = "quick"
   Emit = "accepted"
   Laws = "c10"
-INVARIANT InvAlg
+INVARIANT InvCase
 CHECK_DEADLOCK FALSE
